@@ -251,9 +251,13 @@ type vpGen struct {
 	names   []string // names to choose from
 	wild    bool     // also allow an arbitrary handle value / arbitrary short name
 	maxData int      // WRITE payload bound
+	fixed   bool     // no choices: first handle, first name, the all-fields sattr3
 }
 
 func (g *vpGen) fh(tag string) uint64 {
+	if g.fixed {
+		return g.handles[0]
+	}
 	n := len(g.handles)
 	hi := n - 1
 	if g.wild {
@@ -267,6 +271,9 @@ func (g *vpGen) fh(tag string) uint64 {
 }
 
 func (g *vpGen) name(tag string) string {
+	if g.fixed {
+		return g.names[0]
+	}
 	n := len(g.names)
 	hi := n - 1
 	if g.wild {
@@ -282,7 +289,11 @@ func (g *vpGen) name(tag string) string {
 // sattr draws a sattr3 from a menu of field combinations with symbolic values.
 func (g *vpGen) sattr(tag string) *vpSattr {
 	s := &vpSattr{mode: vpU32(tag + ".mode"), uid: vpU32(tag + ".uid"), gid: vpU32(tag + ".gid"), size: vpU64(tag + ".size")}
-	switch vpChoose(tag+".fields", 0, 5) {
+	sel := 4
+	if !g.fixed {
+		sel = vpChoose(tag+".fields", 0, 5)
+	}
+	switch sel {
 	case 0:
 	case 1:
 		s.setMode = true
@@ -316,11 +327,17 @@ func (g *vpGen) args(proc uint32) []byte {
 	case NFSPROC3_READ:
 		b.fh(g.fh("fh")).u64(vpU64("offset")).u32(vpU32("count"))
 	case NFSPROC3_WRITE:
-		n := vpChoose("wlen", 0, g.maxData)
+		n := g.maxData
+		if !g.fixed {
+			n = vpChoose("wlen", 0, g.maxData)
+		}
 		b.fh(g.fh("fh")).u64(vpU64("offset")).u32(uint32(n)).u32(vpU32("stable")).opaque(vpBytes("wdata", n))
 	case NFSPROC3_CREATE:
 		b.fh(g.fh("fh")).str(g.name("name"))
-		how := vpChoose("how", 0, 2)
+		how := 0
+		if !g.fixed {
+			how = vpChoose("how", 0, 2)
+		}
 		b.u32(uint32(how))
 		if how == 2 {
 			b.raw(vpBytes("verf", 8))
